@@ -18,6 +18,16 @@ GENERAL = ["k%d*A/(1+B)", "k%d*A^2 + C", "k%d*exp(-B/4)*C", "k%d*log(A+1)", "k%d
 
 
 def gen_model(rng):
+    spec = gen_model_(rng)
+    if rng.chance(1, 2):
+        # parameter names as people write them: some contain an underscore followed by the whole name of another parameter
+        # (K_d next to d, k_on next to on), one is called k like the key of the propensity dictionaries
+        from props.C12 import rename
+        spec = rename(spec, {"k1": "d", "K1": "K_d", "k2": "on", "K2": "k_on", "k3": "k", "n3": "k_n"})
+    return spec
+
+
+def gen_model_(rng):
     rx = []
     # one parameter dictionary object handed to several reactions, as a script that defines `params = {"k": ...}` once does
     shared = {"k": rng.choice(["k0", 0.5, 2.0])} if rng.chance(1, 3) else None
